@@ -114,6 +114,15 @@ def gen(rng, idx, tier):
         cands = [g for g in glyphs if g["name"] != ".notdef"]
         if cands:
             rng.choice(cands)["unicodes"].append(rng.choice([0x10000, 0x1F600, 0x10FFFF]))
+    if rng.random() < 0.1:
+        # U+0000 is a code point like any other (the lowest one): alone or next to others
+        cands = [g for g in glyphs if g["name"] != ".notdef"]
+        if cands:
+            g0 = rng.choice(cands)
+            if rng.random() < 0.3:
+                for g in glyphs:
+                    g["unicodes"] = []
+            g0["unicodes"] = [0] + [cp for cp in g0["unicodes"] if cp]
     info = {"unitsPerEm": 1000, "familyName": "T", "styleName": "R"}
     vertical = rng.random() < 0.45
     if vertical:
@@ -439,6 +448,8 @@ def run(case):
                 "stored": list(pre["os2"]), "expected": list(exp_os2)}})
         if cps_all and max(cps_all) > 0xFFFF:
             bump("pre_os2_supplementary")
+        if cps_all and min(cps_all) == 0:
+            bump("pre_os2_codepoint_zero")
         # otherwise post-processing already saved / reloaded the font (cffsubr, name dropping) and
         # the in-memory values are fontTools' recomputed ones, judged below
         violations.extend(judge_pre(pre, bump, tolmode))
